@@ -43,7 +43,7 @@ func (r *Rand) Range(lo, hi int) int {
 	return lo + r.Intn(hi-lo+1)
 }
 
-func (r *Rand) Bool() bool         { return r.U64()&1 == 1 }
+func (r *Rand) Bool() bool          { return r.U64()&1 == 1 }
 func (r *Rand) Chance(pct int) bool { return r.Intn(100) < pct }
 
 // Pick chooses an index according to integer weights.
